@@ -27,6 +27,7 @@ type HarnessRun struct {
 	Shapes func(s *Session, tier string) []int
 	Cfg    func(tier string) interp.Config
 	Desc   func(s *Session, shape int) string // human description of a shape
+	Tag    string                             // distinguishes two runs of one harness function
 	Canary int                                // number of leading shapes to run the canary twin on
 	CanaryShapes []int                        // explicit canary shapes (overrides Canary)
 }
@@ -451,7 +452,7 @@ func runCheck(spec *CheckSpec, tier string, seed, workers int) int {
 			viols = append(viols, &confirmedViolation{V: v, Desc: desc})
 		}
 		for wi, w := range r.Witnesses {
-			id := fmt.Sprintf("w-%s-%d-%d", r.Job.Harness, r.Job.Shape, wi)
+			id := fmt.Sprintf("w-%s%s-%d-%d", r.Job.Harness, run.Tag, r.Job.Shape, wi)
 			wc := replayCase{ID: id, Harness: r.Job.Harness, Shape: r.Job.Shape, Model: w.Model}
 			if spec.Instrument {
 				wc.Sched = w.Sched
